@@ -70,6 +70,7 @@ type Node struct {
 	Retries int        `json:"retries,omitempty"`
 	Props   []PropItem `json:"props,omitempty"`   // olive:properties
 	Headers []PropItem `json:"headers,omitempty"` // olive:taskHeaders
+	Ext     []string   `json:"ext,omitempty"`     // further children of the extension elements, verbatim
 }
 
 // PropItem is an olive property/header declaration.
@@ -343,7 +344,7 @@ func (g *Graph) renderScope(b *strings.Builder, scope, ind string) {
 		case Task:
 			tag := taskTag(n)
 			fmt.Fprintf(b, `%s<bpmn:%s id="%s" name="%s">`+"\n", ind, tag, n.ID, n.ID)
-			if len(n.Writes) > 0 || len(n.Outputs) > 0 || len(n.Inputs) > 0 || n.Retries != 0 || len(n.Props) > 0 || len(n.Headers) > 0 {
+			if len(n.Writes) > 0 || len(n.Outputs) > 0 || len(n.Inputs) > 0 || n.Retries != 0 || len(n.Props) > 0 || len(n.Headers) > 0 || len(n.Ext) > 0 {
 				fmt.Fprintf(b, "%s  <bpmn:extensionElements>\n", ind)
 				if n.Retries != 0 {
 					fmt.Fprintf(b, `%s    <olive:taskDefinition type="service" retries="%d"/>`+"\n", ind, n.Retries)
@@ -383,6 +384,9 @@ func (g *Graph) renderScope(b *strings.Builder, scope, ind string) {
 						target = name
 					}
 					fmt.Fprintf(b, `%s    <olive:dataOutput name="%s" targetRef="%s"/>`+"\n", ind, name, target)
+				}
+				for _, x := range n.Ext {
+					fmt.Fprintf(b, "%s    %s\n", ind, x)
 				}
 				fmt.Fprintf(b, "%s  </bpmn:extensionElements>\n", ind)
 			}
